@@ -23,7 +23,9 @@ Pad(lines, mode) ==
     CASE mode = 0 -> lines
       [] mode = 1 -> <<[k |-> "comment"]>> \o lines \o <<[k |-> "blank"]>>
       [] mode = 2 -> <<lines[1], [k |-> "blank"], [k |-> "comment"]>> \o SubSeq(lines, 2, Len(lines))
-Bad == {"invalid-name", "mixed-reference", "cycle", "non-numeric-modifier", "unknown-modifier", "unknown-directive", "unterminated-block", "dangling-reference"}
+Bad == {"invalid-name", "mixed-reference", "cycle", "non-numeric-modifier", "unknown-modifier", "unknown-directive", "unterminated-block", "dangling-reference",
+        "scaled-dimension",        \* [DD] = 2 * [A] ** 2 : a derived dimension is a monomial of dimensions, without a numeric factor
+        "scaled-relation"}         \* @context ... 3 [A] -> [B]: ... : the ends of a relation are dimensionalities, without a numeric factor
 Damage(lines, why) ==
     CASE why = "cycle" -> lines \o <<[k |-> "unit", name |-> "p", scale |-> R(2), ref |-> Single("q", One), sym |-> "P", alias |-> "pp"],
                                      [k |-> "unit", name |-> "q", scale |-> R(3), ref |-> Single("p", One), sym |-> "Q", alias |-> "qq"]>>
